@@ -190,6 +190,24 @@ func ext4PrefixScenarios(cfg fatCfg, oracle string, depth int) []*fatScen {
 		{Kind: "mkdir", Path: "newdir"}, {Kind: "symlink", Path: "slow-link", Path2: strings.Repeat("t", 90)}, {Kind: "remove", Path: "q0000"}, {Kind: "remove", Path: "q0002"},
 		{Kind: "readpartial", Path: "q0000"}, {Kind: "reopen"}}
 	out = append(out, &fatScen{Name: "fragfree", Cfg: cfg, Prefix: []fsOp{{Kind: "fragfill", Path: "q", Len: hole}}, Letters: lff, Depth: depth, Oracle: oracle})
+	// alignedholes: single-block and three-block holes at every bit position of a bitmap byte, each followed by a run of
+	// used blocks that covers whole bitmap bytes (free-run searches that work bytewise must not join a hole to the next one)
+	var pa []fsOp
+	for i := 0; i < 9; i++ {
+		pa = append(pa, W(fmt.Sprintf("h%d", i), "0", "c"), W(fmt.Sprintf("k%d.bin", i), "0", "16c"))
+	}
+	for i := 0; i < 8; i++ {
+		pa = append(pa, W(fmt.Sprintf("g%d", i), "0", "3c"), W(fmt.Sprintf("m%d.bin", i), "0", "8c"))
+	}
+	for i := 0; i < 9; i++ {
+		pa = append(pa, fsOp{Kind: "remove", Path: fmt.Sprintf("h%d", i)})
+	}
+	for i := 0; i < 8; i++ {
+		pa = append(pa, fsOp{Kind: "remove", Path: fmt.Sprintf("g%d", i)})
+	}
+	lah := []fsOp{W("n2.bin", "0", "2c"), W("n4.bin", "0", "4c"), W("n1.bin", "0", "c"), {Kind: "append", Path: "k0.bin", Len: "2c"}, {Kind: "append", Path: "m7.bin", Len: "5c"}, {Kind: "mkdir", Path: "nd"},
+		{Kind: "remove", Path: "k3.bin"}, {Kind: "readpartial", Path: "k4.bin"}, {Kind: "reopen"}}
+	out = append(out, &fatScen{Name: "alignedholes", Cfg: cfg, Prefix: pa, Letters: lah, Depth: depth + 1, Oracle: oracle})
 	// enospc: fill the volume
 	lfill := []fsOp{W("F1", "0", "p40"), W("F1", "0", "p70"), W("F2", "0", "p40"), W("F2", "0", "p70"), {Kind: "remove", Path: "F1"}, {Kind: "remove", Path: "F2"}, {Kind: "mkdir", Path: "DIR"}, {Kind: "create", Path: "DIR/x"}, {Kind: "reopen"}}
 	out = append(out, &fatScen{Name: "enospc", Cfg: cfg, Letters: lfill, Depth: depth, Oracle: oracle})
